@@ -61,3 +61,121 @@ pub fn substream_over_yamux(
         codec,
     )
 }
+
+/// Harness around a real [`ProtocolSet`](crate::protocol::ProtocolSet): the per-connection
+/// fan-out of connection events to the installed protocols and to the transport manager.
+pub mod protocol_set {
+    use crate::{
+        codec::ProtocolCodec,
+        protocol::{InnerTransportEvent, ProtocolSet, SubstreamKeepAlive},
+        transport::{
+            manager::{ProtocolContext, TransportManagerEvent},
+            Endpoint,
+        },
+        types::{protocol::ProtocolName, ConnectionId},
+        PeerId,
+    };
+    use std::{
+        collections::HashMap,
+        sync::{atomic::AtomicUsize, Arc},
+    };
+    use tokio::sync::mpsc::{channel, Receiver};
+
+    /// What a protocol (or the manager) found in its queue.
+    #[derive(Debug, Clone, Copy, PartialEq, Eq)]
+    pub enum Seen {
+        /// Connection established.
+        Established,
+        /// Connection closed.
+        Closed,
+        /// Anything else.
+        Other,
+    }
+
+    /// Receiving end of one protocol's event queue.
+    pub struct ProtocolQueue(Receiver<InnerTransportEvent>);
+
+    impl ProtocolQueue {
+        /// Next event of the protocol's queue.
+        pub async fn next(&mut self) -> Option<Seen> {
+            self.0.recv().await.map(|event| match event {
+                InnerTransportEvent::ConnectionEstablished { .. } => Seen::Established,
+                InnerTransportEvent::ConnectionClosed { .. } => Seen::Closed,
+                _ => Seen::Other,
+            })
+        }
+    }
+
+    /// Receiving end of the manager's event queue.
+    pub struct ManagerQueue(Receiver<TransportManagerEvent>);
+
+    impl ManagerQueue {
+        /// Next event of the manager's queue.
+        pub async fn next(&mut self) -> Option<Seen> {
+            self.0.recv().await.map(|event| match event {
+                TransportManagerEvent::ConnectionClosed { .. } => Seen::Closed,
+            })
+        }
+    }
+
+    /// A real `ProtocolSet` for one connection over `protocols` event queues of `capacity`.
+    pub struct Harness {
+        set: ProtocolSet,
+        peer: PeerId,
+        connection: ConnectionId,
+    }
+
+    impl Harness {
+        /// Create the harness.
+        pub fn new(
+            peer: PeerId,
+            protocols: usize,
+            capacity: usize,
+        ) -> (Self, Vec<ProtocolQueue>, ManagerQueue) {
+            let (mgr_tx, mgr_rx) = channel(64);
+            let mut contexts = HashMap::new();
+            let mut queues = Vec::new();
+
+            for index in 0..protocols {
+                let (tx, rx) = channel(capacity.max(1));
+                contexts.insert(
+                    ProtocolName::from(format!("/verif/{index}")),
+                    ProtocolContext {
+                        codec: ProtocolCodec::UnsignedVarint(None),
+                        tx,
+                        fallback_names: Vec::new(),
+                        keep_alive: SubstreamKeepAlive::Yes,
+                    },
+                );
+                queues.push(ProtocolQueue(rx));
+            }
+
+            let connection = ConnectionId::from(1usize);
+            let set = ProtocolSet::new(connection, mgr_tx, Arc::new(AtomicUsize::new(0)), contexts);
+
+            (
+                Self {
+                    set,
+                    peer,
+                    connection,
+                },
+                queues,
+                ManagerQueue(mgr_rx),
+            )
+        }
+
+        /// `ProtocolSet::report_connection_established`
+        pub async fn report_connection_established(&mut self) -> crate::Result<()> {
+            let endpoint = Endpoint::Listener {
+                address: multiaddr::Multiaddr::empty(),
+                connection_id: self.connection,
+            };
+            self.set.report_connection_established(self.peer, endpoint).await
+        }
+
+        /// `ProtocolSet::report_connection_closed`
+        pub async fn report_connection_closed(&mut self) -> crate::Result<()> {
+            self.set.report_connection_closed(self.peer, self.connection).await
+        }
+    }
+}
